@@ -198,6 +198,8 @@ class DSDLDefinition(ReadableDSDLFile):
         relative_path = self._root_namespace_path.name / self._file_path.relative_to(self._root_namespace_path)
 
         # Parsing the basename, e.g., 434.GetTransportStatistics.0.1.dsdl
+        if relative_path.suffix not in (".dsdl", ".uavcan"):
+            raise FileNameFormatError("Invalid file name: not a DSDL definition file extension", path=self._file_path)
         basename_components = relative_path.name.split(".")[:-1]
         str_fixed_port_id: str | None = None
         if len(basename_components) == 4:
